@@ -205,6 +205,8 @@ def cmd_events(cmd, hv):
 
 def to_model(case, obs):
     """-> (coq term, probes, problems); probes = (model output index | None, expectation, obs key)."""
+    if case.get("flavour") == "hold-repair-release":
+        return None, [], []                 # oracle-only flavour
     cfg = case["cfg"]
     mode = cfg["mode"]
     npro = n_prologue(cfg)
@@ -498,6 +500,28 @@ def gen_random(rng, mode=None):
         for _ in range(6):
             body.append({"ctl": [], "hosts": {str(c): [["read", CLIENT_SID, 4]], str(s): [["read", SERVER_SID, 4]]}})
     return build_case(cfg, body, "random-" + cfg["mode"])
+
+
+def gen_hold_repair_release(rng):
+    """Oracle-only flavour (no model rendering: `repair` of a held link is outside the Stream model's link alphabet):
+    hold, a write parked under the hold, repair / repair_oneway of the held link (new segments flow again, the parked
+    one stays parked), more writes and the shutdown, release, then quiet steps in which the reader reads.  After the
+    release the link is healthy, so everything written and then end-of-file must arrive and nothing may stay on the
+    link (seed C02-A8)."""
+    cfg = base_cfg(rng, "remote", cap=4)
+    c, s = hosts_of(cfg)
+    by = Bytes()
+    wh, wsid, rh, rsid = rng.choice([(c, CLIENT_SID, s, SERVER_SID), (s, SERVER_SID, c, CLIENT_SID)])
+    rep = rng.choice([["repair", c, s], ["repair", s, c], ["repair_oneway", wh, rh], ["repair_oneway", rh, wh]])
+    body = [{"ctl": [["hold", c, s]], "hosts": {str(wh): [["try_write", wsid, by.take(rng.choice([1, 3]))]]}}]
+    if rng.random() < 0.5:
+        body.append({"ctl": [], "hosts": {str(wh): [["try_write", wsid, by.take(2)]]}})
+    body.append({"ctl": [rep], "hosts": {str(wh): [["try_write", wsid, by.take(2)]]}})
+    body.append({"ctl": [], "hosts": {str(wh): [["shutdown", wsid]], str(rh): [["read", rsid, 64]]}})
+    body.append({"ctl": [["release", c, s]], "hosts": {}})
+    for _ in range(9):
+        body.append({"ctl": [], "hosts": {str(rh): [["read", rsid, 64], ["read", rsid, 64]]}})
+    return build_case(cfg, body, "hold-repair-release")
 
 
 def gen_complete(rng, mode=None, abortless=True):
